@@ -11,7 +11,7 @@ from harness.core import llit, slit
 IMPORTS = "From Coq Require Import List String.\nImport ListNotations.\nFrom Elex Require Import Model.Persist.\nOpen Scope string_scope.\n"
 
 RULE = ("the finite configuration space is enumerated completely every run: 2^4 subsets of save_output {results, data, config, conformalization} x "
-        "{local, non-local environment} x {nonparametric, gaussian, bootstrap} x {minimum-units gate passes, fails} = 192 get_estimates runs (plus sequences of "
+        "{local, non-local environment} x {nonparametric, gaussian, bootstrap} x {minimum-units gate passes, fails} = 192 get_estimates runs (plus 16 runs whose baseline is fetched from the fake remote storage instead of being passed in memory, plus sequences of "
         "two calls in one process with model_parameters left at its default: what the first call saved must not be saved by the second) against a "
         "fake boto3 client (put_object recorded in order) in an empty working directory (local files listed afterwards); the observed event sequence is "
         "compared inside Coq with writes(cfg); every remote key is checked to be whitespace-free and under <root>/<election id>/. "
@@ -21,29 +21,37 @@ ROOT = "verif-root-dev"
 
 
 class FakeS3:
-    def __init__(self, log):
+    def __init__(self, log, objects=None):
         self.log = log
+        self.objects = objects or {}
 
     def put_object(self, **kw):
         self.log.append(kw.get("Key"))
         return True
 
     def get_object(self, **kw):
+        import io
+
+        for suffix, body in self.objects.items():
+            if str(kw.get("Key", "")).endswith(suffix):
+                return {"Body": io.BytesIO(body.encode("utf-8")), "LastModified": "2030-01-01"}
         raise RuntimeError("fake S3: get_object not available")
 
 
 def worker(job):
     from harness import run_impl
 
-    idx, save, local, pi, gate_ok = job
+    idx, save, local, pi, gate_ok = job[:5]
+    remote = len(job) > 5 and job[5]
     client = run_impl._imp()
     import boto3
 
     import elexmodel.handlers.s3 as s3mod
 
     log = []
+    objects = {}
     orig = boto3.client
-    s3mod.boto3.client = lambda *a, **k: FakeS3(log)
+    s3mod.boto3.client = lambda *a, **k: FakeS3(log, objects)
     old_env = client.APP_ENV
     client.APP_ENV = "local" if local else "prod"
     wd = os.path.join(core.BUILD, "c18", f"w{idx}")
@@ -65,7 +73,10 @@ def worker(job):
         case["params"] = {"estimands": est, "prediction_intervals": [0.7], "percent_reporting_threshold": 100, "pi_method": pi,
                           "aggregates": ["postal_code", "county_fips", "unit"], "features": ["baseline_normalized_margin"] if pi == "bootstrap" else [],
                           "fixed_effects": {}, "model_parameters": mp, "handle_unreporting": "drop", "save_output": list(save)}
-        r = run_impl.run_case(case)
+        if remote:
+            # the baseline is not handed over in memory: the client fetches it from (fake) remote storage
+            objects["data_county.csv"] = run_impl.frames(case)[0].to_csv(index=False)
+        r = run_impl.run_case(case, preprocessed_none=bool(remote))
         files = []
         for d, _, fs in os.walk(wd):
             for f in fs:
@@ -153,12 +164,18 @@ def run(chk):
                     for gate_ok in (True, False):
                         jobs.append((idx, save, local, pi, gate_ok))
                         idx += 1
+    # the same, for a few configurations, with the baseline fetched from remote storage instead of passed in memory
+    for save in ((), ("results",), ("data",), ("config", "conformalization")):
+        for local in (True, False):
+            for pi in ("nonparametric", "gaussian"):
+                jobs.append((idx, save, local, pi, True, True))
+                idx += 1
     outs = core.pmap(worker, jobs)
     exprs = []
     for o in outs:
-        idx, save, local, pi, gate_ok = o["job"]
+        idx, save, local, pi, gate_ok = o["job"][:5]
         replay = {"kind": "c18", "job": o["job"]}
-        chk.count({"save": save, "local": local, "pi": pi, "gate": gate_ok}, nontrivial=len(save) > 0,
+        chk.count({"save": save, "local": local, "pi": pi, "gate": gate_ok, "remote_baseline": len(o["job"]) > 5}, nontrivial=len(save) > 0,
                   sample={"save_output": save, "environment": "local" if local else "prod", "estimator": pi, "gate_passes": gate_ok, "puts": o["puts"][:4], "files": o["files"]})
         gate_observed = o["ok"] or not (o["exc"] and o["exc"][0] == "ModelNotEnoughSubunitsException")
         if gate_ok and not o["ok"]:
